@@ -91,6 +91,26 @@ def _same_datetime(a, b):
     return x == y
 
 
+def _where(cls, where):
+    # a pattern that names a finding on its own stands without the class
+    return where if where.startswith("__datetime:") else f"{cls}{where}"
+
+
+def _datetime_pattern(path, a):
+    """Where two datetimes differ. A stamp whose UTC offset has a seconds
+    part gets a class of its own, whatever field it sits in (known finding
+    F10: the JSON writer cuts the offset to whole minutes)."""
+    import datetime as dt  # noqa: PLC0415
+
+    try:
+        off = dt.datetime.fromisoformat(a["__datetime"]).utcoffset()
+    except (TypeError, ValueError):
+        off = None
+    if off is not None and off.total_seconds() % 60:
+        return "__datetime:sub-minute-utc-offset"
+    return _pattern(path + [".__datetime"])
+
+
 def first_diff(a, b, path=None):
     """First differing location between two canon trees, as a value-free
     pattern (list indices replaced by []), or None if equal.
@@ -106,7 +126,7 @@ def first_diff(a, b, path=None):
         return _pattern(path), a, b
     if _is_datetime(a) and _is_datetime(b):
         return None if _same_datetime(a, b) else (
-            _pattern(path + [".__datetime"]), a["__datetime"], b["__datetime"]
+            _datetime_pattern(path, a), a["__datetime"], b["__datetime"]
         )
     if isinstance(a, dict):
         keys = list(dict.fromkeys(list(a) + list(b)))
@@ -142,7 +162,7 @@ def iter_diffs(a, b, path=None):
         return
     if _is_datetime(a) and _is_datetime(b):
         if not _same_datetime(a, b):
-            yield _pattern(path + [".__datetime"]), a["__datetime"], b["__datetime"]
+            yield _datetime_pattern(path, a), a["__datetime"], b["__datetime"]
         return
     if isinstance(a, dict):
         for key in dict.fromkeys(list(a) + list(b)):
@@ -172,7 +192,7 @@ def canon_diffs(expected: dict, actual: dict, limit=12):
             out.append((cls, detail))
 
     for where, a, b in iter_diffs(expected["root"], actual["root"]):
-        add(f"root{where}", f"expected {_short(a)} got {_short(b)}")
+        add(_where("root", where), f"expected {_short(a)} got {_short(b)}")
     for key, body in expected["defs"].items():
         other = actual["defs"].get(key)
         cls = key.split(":", 1)[0]
@@ -180,7 +200,7 @@ def canon_diffs(expected: dict, actual: dict, limit=12):
             add(f"missing-object:{cls}", key)
             continue
         for where, a, b in iter_diffs(body, other):
-            add(f"{cls}{where}", f"{key}: expected {_short(a)} got {_short(b)}")
+            add(_where(cls, where), f"{key}: expected {_short(a)} got {_short(b)}")
     for key in actual["defs"]:
         if key not in expected["defs"]:
             add(f"extra-object:{key.split(':', 1)[0]}", key)
@@ -200,7 +220,7 @@ def canon_diff(expected: dict, actual: dict):
     found = first_diff(expected["root"], actual["root"])
     if found:
         where, a, b = found
-        return f"root{where}", f"expected {_short(a)} got {_short(b)}"
+        return _where("root", where), f"expected {_short(a)} got {_short(b)}"
     for key, body in expected["defs"].items():
         other = actual["defs"].get(key)
         cls = key.split(":", 1)[0]
